@@ -532,7 +532,7 @@ func TestC13_HandledError(t *testing.T) {
 // complete artefact.
 func TestC13_ErrorPoints(t *testing.T) {
 	thorough := evid.Thorough()
-	budget := evid.EnvInt("VERIF_C13_ERR_RUNS", 40)
+	budget := evid.EnvInt("VERIF_C13_ERR_RUNS", 400)
 	errCalls := []string{"write", "pwrite64", "copy_file_range", "fchmod", "ftruncate", "renameat"}
 	errnos := map[string]string{"write": "ENOSPC", "pwrite64": "ENOSPC", "copy_file_range": "ENOSPC", "fchmod": "EPERM", "ftruncate": "EIO", "renameat": "EACCES"}
 	type pt struct {
